@@ -158,7 +158,7 @@ class C16(VectorEngine):
         "quick": [("MC_Scope", "MC_Scope_C16_a.cfg", {"workers": 8}), ("MC_Scope", "MC_Scope_C16_b.cfg", {"workers": 8}),
                   ("MC_Scope", "MC_Scope_C16_c.cfg", {"workers": 8})],
         "thorough": [("MC_Scope", "MC_Scope_C16_b.cfg", {"workers": 8}), ("MC_Scope", "MC_Scope_C16_t.cfg", {"workers": 8, "timeout": 1800}),
-                     ("MC_Scope", "MC_Scope_C16_sim.cfg", {"simulate": "num=40000", "depth": 30, "workers": 4, "timeout": 600})],
+                     ("MC_Scope", "MC_Scope_C16_sim.cfg", {"simulate": "num=10000", "depth": 30, "workers": 4, "timeout": 600})],
     }
     random_n = {"quick": 600, "thorough": 6000}
     # with a deviation switched on TLC must find the property's laws violated in the model
